@@ -8,6 +8,107 @@ import ALV.Lemmas.C04Field
 set_option linter.unusedSectionVars false
 set_option linter.unusedSimpArgs false
 namespace ALV.C04
+
+/-! ## look-ups, sorted inserts, `Poly(...)` construction: valid for any coefficient type with a
+zero and decidable equality (no algebraic law) -/
+section generic
+variable {K : Type} [OfNat K 0] [DecidableEq K]
+
+theorem coefAt_cons_self (k : Int) (v : K) (r : Terms K) : coefAt ((k, v) :: r) k = v := by
+  simp [coefAt]
+
+theorem coefAt_cons_ne (k j : Int) (v : K) (r : Terms K) (h : k ≠ j) :
+    coefAt ((k, v) :: r) j = coefAt r j := by
+  simp [coefAt, List.find?_cons, h]
+
+theorem coefAt_of_lt (t : Terms K) (j : Int) (h : ∀ kv ∈ t, j < kv.1) : coefAt t j = 0 := by
+  induction t with
+  | nil => rfl
+  | cons kv r ih =>
+    obtain ⟨k, v⟩ := kv
+    have hk : j < k := h (k, v) (by simp)
+    rw [coefAt_cons_ne k j v r (by omega)]
+    exact ih (fun kv hkv => h kv (by simp [hkv]))
+
+theorem le_order (t : Terms K) : ∀ kv ∈ t, kv.1.toNat ≤ order t := by
+  induction t with
+  | nil => simp
+  | cons kv r ih =>
+    obtain ⟨k, v⟩ := kv
+    intro kv' h
+    rcases List.mem_cons.1 h with h | h
+    · rw [h]; simp [order]
+    · have := ih kv' h
+      simp only [order]
+      omega
+
+/-! ### `Poly(...)` construction -/
+
+theorem mem_tinsert (k : Int) (v : K) (t : Terms K) (kv : Int × K) (h : kv ∈ tinsert k v t) :
+    kv = (k, v) ∨ kv ∈ t := by
+  induction t with
+  | nil => simp [tinsert] at h; exact Or.inl h
+  | cons kv' r ih =>
+    obtain ⟨k', v'⟩ := kv'
+    simp only [tinsert] at h
+    split_ifs at h with h1 h2
+    · rcases List.mem_cons.1 h with h | h
+      · exact Or.inl h
+      · exact Or.inr h
+    · rcases List.mem_cons.1 h with h | h
+      · exact Or.inl h
+      · exact Or.inr (List.mem_cons_of_mem _ h)
+    · rcases List.mem_cons.1 h with h | h
+      · exact Or.inr (by rw [h]; simp)
+      · rcases ih h with h | h
+        · exact Or.inl h
+        · exact Or.inr (List.mem_cons_of_mem _ h)
+
+/-- dict assignment keeps the association list strictly sorted by power -/
+theorem tinsert_sorted (k : Int) (v : K) (t : Terms K)
+    (hs : List.Pairwise (fun x y : Int × K => x.1 < y.1) t) :
+    List.Pairwise (fun x y : Int × K => x.1 < y.1) (tinsert k v t) := by
+  induction t with
+  | nil => simp [tinsert]
+  | cons kv' r ih =>
+    obtain ⟨k', v'⟩ := kv'
+    have hr := (List.pairwise_cons.1 hs).2
+    have hgt := (List.pairwise_cons.1 hs).1
+    simp only [tinsert]
+    split_ifs with h1 h2
+    · refine List.pairwise_cons.2 ⟨?_, hs⟩
+      intro kv hkv
+      rcases List.mem_cons.1 hkv with h | h
+      · rw [h]; exact h1
+      · have := hgt kv h; simp only at this ⊢; omega
+    · refine List.pairwise_cons.2 ⟨?_, hr⟩
+      intro kv hkv
+      have := hgt kv hkv
+      simp only at this ⊢; omega
+    · refine List.pairwise_cons.2 ⟨?_, ih hr⟩
+      intro kv hkv
+      rcases mem_tinsert k v r kv hkv with h | h
+      · rw [h]; simp only; omega
+      · exact hgt kv h
+
+/-- `Poly(...)`: what `terms()` yields is strictly sorted by power and stores no zero -/
+theorem mkPoly_sorted (pairs : List (Int × K)) :
+    List.Pairwise (fun x y : Int × K => x.1 < y.1) (mkPoly pairs) := by
+  have : ∀ (acc : Terms K), List.Pairwise (fun x y : Int × K => x.1 < y.1) acc →
+      List.Pairwise (fun x y : Int × K => x.1 < y.1)
+        (pairs.foldl (fun acc kv => tinsert kv.1 kv.2 acc) acc) := by
+    induction pairs with
+    | nil => intro acc h; exact h
+    | cons kv r ih => intro acc h; exact ih _ (tinsert_sorted kv.1 kv.2 acc h)
+  exact List.Pairwise.filter _ (this [] List.Pairwise.nil)
+
+theorem mkPoly_nonzero (pairs : List (Int × K)) : ∀ kv ∈ mkPoly pairs, kv.2 ≠ 0 := by
+  intro kv h
+  simp only [mkPoly, List.mem_filter] at h
+  simpa using h.2
+
+end generic
+
 variable {K : Type} [Field K] [DecidableEq K]
 
 theorem zero_ne_neg_one : (0 : K) ≠ -1 := by
@@ -28,22 +129,6 @@ theorem numAtoms_zero (k : Nat) : numAtoms k [(0 : K)] = [] := by
 
 theorem denAtoms_zero (k : Nat) : denAtoms k [(0 : K)] = [] := by
   simp [denAtoms, zero_ne_neg_one, (zero_ne_one : (0 : K) ≠ 1)]
-
-theorem coefAt_cons_self (k : Int) (v : K) (r : Terms K) : coefAt ((k, v) :: r) k = v := by
-  simp [coefAt]
-
-theorem coefAt_cons_ne (k j : Int) (v : K) (r : Terms K) (h : k ≠ j) :
-    coefAt ((k, v) :: r) j = coefAt r j := by
-  simp [coefAt, List.find?_cons, h]
-
-theorem coefAt_of_lt (t : Terms K) (j : Int) (h : ∀ kv ∈ t, j < kv.1) : coefAt t j = 0 := by
-  induction t with
-  | nil => rfl
-  | cons kv r ih =>
-    obtain ⟨k, v⟩ := kv
-    have hk : j < k := h (k, v) (by simp)
-    rw [coefAt_cons_ne k j v r (by omega)]
-    exact ih (fun kv hkv => h kv (by simp [hkv]))
 
 /-- sliding window: the dense coefficients of delays `j … j+m-1` give the summands of exactly
 the stored terms, in order -/
@@ -185,18 +270,6 @@ theorem denAtoms_window (m : Nat) : ∀ (j : Nat) (t : Terms K),
           · rw [h]; simp only; omega
           · have := hgt kv h; omega)
 
-theorem le_order (t : Terms K) : ∀ kv ∈ t, kv.1.toNat ≤ order t := by
-  induction t with
-  | nil => simp
-  | cons kv r ih =>
-    obtain ⟨k, v⟩ := kv
-    intro kv' h
-    rcases List.mem_cons.1 h with h | h
-    · rw [h]; simp [order]
-    · have := ih kv' h
-      simp only [order]
-      omega
-
 /-- **numerator**: compiling the dense list = iterating the sparse, sorted `numdict` -/
 theorem numAtoms_dense (t : Terms K) (hs : List.Pairwise (fun x y => x.1 < y.1) t)
     (hr : ∀ kv ∈ t, 0 ≤ kv.1 ∧ kv.2 ≠ 0) :
@@ -237,70 +310,5 @@ theorem denAtoms_dense (a0 : K) (r : Terms K)
     have h1 := hgt kv hkv
     have h2 := le_order (((0 : Int), a0) :: r) kv (by simp [hkv])
     refine ⟨by omega, by omega, hr kv hkv⟩)
-
-/-! ### `Poly(...)` construction -/
-
-theorem mem_tinsert (k : Int) (v : K) (t : Terms K) (kv : Int × K) (h : kv ∈ tinsert k v t) :
-    kv = (k, v) ∨ kv ∈ t := by
-  induction t with
-  | nil => simp [tinsert] at h; exact Or.inl h
-  | cons kv' r ih =>
-    obtain ⟨k', v'⟩ := kv'
-    simp only [tinsert] at h
-    split_ifs at h with h1 h2
-    · rcases List.mem_cons.1 h with h | h
-      · exact Or.inl h
-      · exact Or.inr h
-    · rcases List.mem_cons.1 h with h | h
-      · exact Or.inl h
-      · exact Or.inr (List.mem_cons_of_mem _ h)
-    · rcases List.mem_cons.1 h with h | h
-      · exact Or.inr (by rw [h]; simp)
-      · rcases ih h with h | h
-        · exact Or.inl h
-        · exact Or.inr (List.mem_cons_of_mem _ h)
-
-/-- dict assignment keeps the association list strictly sorted by power -/
-theorem tinsert_sorted (k : Int) (v : K) (t : Terms K)
-    (hs : List.Pairwise (fun x y : Int × K => x.1 < y.1) t) :
-    List.Pairwise (fun x y : Int × K => x.1 < y.1) (tinsert k v t) := by
-  induction t with
-  | nil => simp [tinsert]
-  | cons kv' r ih =>
-    obtain ⟨k', v'⟩ := kv'
-    have hr := (List.pairwise_cons.1 hs).2
-    have hgt := (List.pairwise_cons.1 hs).1
-    simp only [tinsert]
-    split_ifs with h1 h2
-    · refine List.pairwise_cons.2 ⟨?_, hs⟩
-      intro kv hkv
-      rcases List.mem_cons.1 hkv with h | h
-      · rw [h]; exact h1
-      · have := hgt kv h; simp only at this ⊢; omega
-    · refine List.pairwise_cons.2 ⟨?_, hr⟩
-      intro kv hkv
-      have := hgt kv hkv
-      simp only at this ⊢; omega
-    · refine List.pairwise_cons.2 ⟨?_, ih hr⟩
-      intro kv hkv
-      rcases mem_tinsert k v r kv hkv with h | h
-      · rw [h]; simp only; omega
-      · exact hgt kv h
-
-/-- `Poly(...)`: what `terms()` yields is strictly sorted by power and stores no zero -/
-theorem mkPoly_sorted (pairs : List (Int × K)) :
-    List.Pairwise (fun x y : Int × K => x.1 < y.1) (mkPoly pairs) := by
-  have : ∀ (acc : Terms K), List.Pairwise (fun x y : Int × K => x.1 < y.1) acc →
-      List.Pairwise (fun x y : Int × K => x.1 < y.1)
-        (pairs.foldl (fun acc kv => tinsert kv.1 kv.2 acc) acc) := by
-    induction pairs with
-    | nil => intro acc h; exact h
-    | cons kv r ih => intro acc h; exact ih _ (tinsert_sorted kv.1 kv.2 acc h)
-  exact List.Pairwise.filter _ (this [] List.Pairwise.nil)
-
-theorem mkPoly_nonzero (pairs : List (Int × K)) : ∀ kv ∈ mkPoly pairs, kv.2 ≠ 0 := by
-  intro kv h
-  simp only [mkPoly, List.mem_filter] at h
-  simpa using h.2
 
 end ALV.C04
